@@ -157,7 +157,8 @@ def verifyObject (H : Hashes) (dashAware : Bool) (o : ObjRow) (calcs : List Sums
 
 /-- A part store. `content` is what the store holds per part id (`none`: no such part).
 `emptyIsMissing`: the store cannot represent an empty part — `GetPart` of one answers
-`ErrPartNotFound` (the SQL part store writes no chunk row for empty content). -/
+`ErrPartNotFound` (the SQL part store wrote no chunk row for empty content until /repo commit
+6ff38ea; the harness observes per case whether an untouched empty part reads back). -/
 structure Store where
   content : Nat → Option Bytes
   emptyIsMissing : Bool
